@@ -1,33 +1,53 @@
-// C12 driver. Oracle: exact rational arithmetic stated without division (cross-multiplied in 128 bit), and std::chrono
-// through the pipeline as a second oracle. Tick counts are symbolic over the Rep range, restricted to inputs whose exact
-// result and whose intermediate common-type / intmax_t values are representable (the same domain std::chrono defines).
+// C12 driver. Oracles: (1) exact rational arithmetic stated without division (cross-multiplied in a type wide enough to
+// be exact), (2) std::chrono through the same pipeline. Tick counts are symbolic over the whole Rep range, restricted to
+// the inputs whose exact result and whose intermediate common-type / intmax_t values are representable (the domain on
+// which std::chrono is defined). Every such domain is an interval [lo, hi] around 0 of the input count; lo and hi are
+// computed at compile time (128-bit constexpr binary search over the monotone predicate) so that the solver sees two
+// constant comparisons instead of 128-bit multiplications and divisions.
 #include "vf.h"
 #include <chrono>
 #include <ratio>
-#ifndef REPW
-#define REPW 32
-#endif
-#if REPW == 32
-typedef int REP;
-#else
-typedef long long REP;
-#endif
+#include <type_traits>
+#include "reps.h"
 typedef __int128 i128;
 using SFrom = std::chrono::duration<REP, std::ratio<FN, FD>>;
 using STo   = std::chrono::duration<REP, std::ratio<TN, TD>>;
 using SCT   = std::common_type_t<SFrom, STo>;
+using STo2  = std::chrono::duration<REP2, std::ratio<TN, TD>>;
+using SCT2  = std::common_type_t<SFrom, STo2>;
+static_assert(std::is_same_v<SCT2::rep, MREP>);
+struct sclock { using duration = SFrom; using rep = REP; using period = SFrom::period; using time_point = std::chrono::time_point<sclock, SFrom>; };
+using STP = std::chrono::time_point<sclock, SFrom>;
+using STP2 = std::chrono::time_point<sclock, STo>;
 extern "C" {
 REP k_cast(REP); REP k_floor(REP); REP k_ceil(REP); REP k_round(REP); REP k_abs(REP); void k_ct_period(long long*, long long*);
-REP k_add(REP, REP); REP k_sub(REP, REP); REP k_mod(REP, REP); REP k_ddiv(REP, REP); REP k_to_common(REP); unsigned k_cmp(REP, REP);
-REP k_neg(REP); REP k_incdec(REP, unsigned); REP k_compound(REP, REP, unsigned);
-REP k_tp_add(REP, REP); REP k_tp_sub(REP, REP); REP k_tp_incdec(REP, unsigned); REP k_tp_cast(REP); REP k_tp_floor(REP); REP k_tp_ceil(REP); REP k_tp_round(REP); unsigned k_tp_cmp(REP, REP);
+REP k_add(REP, REP); REP k_sub(REP, REP); REP k_mod(REP, REP); REP k_ddiv(REP, REP); REP k_to_common(REP); REP k_to_common_b(REP); unsigned k_cmp(REP, REP);
+REP k_neg(REP); REP k_pos(REP); REP k_incdec(REP, unsigned, REP*); void k_zmm(REP*, REP*, REP*);
+REP k_cadd(REP, REP); REP k_csub(REP, REP); REP k_cmul(REP, REP); REP k_cdiv(REP, REP); REP k_cmod(REP, REP); REP k_cmodd(REP, REP);
+REP k_tp_add(REP, REP); REP k_tp_sub(REP, REP); REP k_tp_incdec(REP, unsigned, REP*); void k_tp_mm(REP*, REP*);
+REP k_tp_cast(REP); REP k_tp_floor(REP); REP k_tp_ceil(REP); REP k_tp_round(REP); unsigned k_tp_cmp(REP, REP);
+MREP k_madd(REP, REP2); MREP k_msub(REP, REP2); MREP k_mcommon_a(REP); MREP k_mcommon_b(REP2); unsigned k_mcmp(REP, REP2); REP2 k_mcast(REP);
 }
-static REP nd() { return sizeof(REP) == 4 ? REP(vf_nd_u32()) : REP(vf_nd_u64()); }
-static constexpr i128 RMAX = sizeof(REP) == 4 ? i128(2147483647) : i128(9223372036854775807LL);
-static constexpr i128 RMIN = -RMAX - 1;
-static constexpr i128 IMAX = i128(9223372036854775807LL);
-static bool fits(i128 v) { return v >= RMIN && v <= RMAX; }
-static bool fits64(i128 v) { return v >= -IMAX - 1 && v <= IMAX; }
+template <class T> static T ndT()
+{
+    if constexpr (std::is_same_v<T, float>) return vf_nd_float();
+    else if constexpr (std::is_same_v<T, double>) return vf_nd_double();
+    else if constexpr (sizeof(T) == 2) return T(vf_nd_u16());
+    else if constexpr (sizeof(T) == 4) return T(vf_nd_u32());
+    else return T(vf_nd_u64());
+}
+static REP nd() { return ndT<REP>(); }
+// "exactly the same value": integers ==, floating point same bit pattern or both NaN
+template <class T> static bool same(T x, T y)
+{
+    if constexpr (std::is_same_v<T, float>) return __builtin_bit_cast(unsigned, x) == __builtin_bit_cast(unsigned, y) || (x != x && y != y);
+    else if constexpr (std::is_same_v<T, double>) return __builtin_bit_cast(unsigned long long, x) == __builtin_bit_cast(unsigned long long, y) || (x != x && y != y);
+    else return x == y;
+}
+template <class A, class B> static unsigned six(A const& x, B const& y)
+{
+    return unsigned(x == y) | unsigned(x != y) << 1 | unsigned(x < y) << 2 | unsigned(x <= y) << 3 | unsigned(x > y) << 4 | unsigned(x >= y) << 5;
+}
 // conversion factor From -> To as a reduced fraction CN/CD (std::ratio_divide does the reduction at compile time)
 using CF = std::ratio_divide<std::ratio<FN, FD>, std::ratio<TN, TD>>;
 static constexpr i128 CN = CF::num, CD = CF::den;
@@ -36,143 +56,351 @@ static constexpr i128 PN = SCT::period::num, PD = SCT::period::den;
 static constexpr i128 FF = (i128(FN) * PD) / (i128(FD) * PN); // From ticks -> common ticks
 static constexpr i128 TF = (i128(TN) * PD) / (i128(TD) * PN); // To ticks -> common ticks
 static_assert(FF * FD * PN == i128(FN) * PD && TF * TD * PN == i128(TN) * PD, "common type factors are integral");
-
-#ifndef CLIM
-#define CLIM 0
-#endif
-#ifndef RLIM
-#define RLIM 0   // bound on log2|count| for round (0 = full Rep range)
-#endif
-#ifndef DLIM
-#define DLIM 15  // bound on log2|divisor| / |multiplier| for symbolic-by-symbolic division and multiplication
-#endif
-static void lim(REP c, int bits) { if (bits) vf_assume(i128(c) > -(i128(1) << bits) && i128(c) < (i128(1) << bits)); }
-// documented domain of the rounding casts: count * num fits intmax_t (duration_cast computes in common_type<Rep, intmax_t>),
-// and the comparisons/subtractions against the source happen in the common type, whose values must be representable
-static void cast_domain(REP c)
-{
-    vf_assume(fits64(i128(c) * CN));
-    vf_assume(fits(i128(c) * FF));
-    if (CLIM) vf_assume(i128(c) > -(i128(1) << CLIM) && i128(c) < (i128(1) << CLIM));
-}
-static void res_domain(i128 lo, i128 hi) { vf_assume(fits(lo * TF) && fits(hi * TF) && fits(lo) && fits(hi)); }
+static_assert(FF * CD == CN * TF, "FF/TF == CN/CD");
 
 Q q_period()
 {
     long long* n = (long long*)vf_alloc(8); long long* d = (long long*)vf_alloc(8); k_ct_period(n, d);
     vf_assert(*n == SCT::period::num && *d == SCT::period::den, "common_type period == std (gcd of numerators / lcm of denominators)");
 }
+
+template <class T> constexpr i128 tmax() { return sizeof(T) == 2 ? i128(32767) : sizeof(T) == 4 ? i128(2147483647) : i128(9223372036854775807LL); }
+struct Dom { i128 lo, hi; bool ok; };
+// the interval {c in [-tmax-1, tmax] : p(c)} for a predicate whose truth set is an interval that contains 0 or is empty
+template <class T> constexpr Dom mkdom(bool (*p)(i128))
+{
+    if (!p(0)) return {0, -1, false};
+    i128 l = 0, h = tmax<T>();
+    while (l < h) { i128 m = l + (h - l + 1) / 2; if (p(m)) l = m; else h = m - 1; }
+    i128 hi = l;
+    l = -tmax<T>() - 1; h = 0;
+    while (l < h) { i128 m = l + (h - l) / 2; if (p(m)) h = m; else l = m + 1; }
+    return {l, hi, true};
+}
+template <class T> constexpr bool domok(Dom d, bool (*p)(i128))
+{
+    if (!d.ok) return true;
+    return p(d.lo) && p(d.hi) && (d.lo == -tmax<T>() - 1 || !p(d.lo - 1)) && (d.hi == tmax<T>() || !p(d.hi + 1)) && p(d.lo / 2) && p(d.hi / 2);
+}
+template <class T> static T in(Dom d)
+{
+    T c = ndT<T>();
+    vf_assume(d.ok && c >= T(d.lo) && c <= T(d.hi));
+    return c;
+}
+#ifndef RLIM
+#define RLIM 0   // bound on log2|count| for round with the rational oracle (0 = the whole domain)
+#endif
+#ifndef DLIM
+#define DLIM 15  // bound on log2|divisor| / |multiplier| where the oracle multiplies two symbolic values
+#endif
+template <class T> static void lim(T c, int bits) { if (bits && bits < int(sizeof(T) * 8 - 1)) vf_assume(c > -(T(1) << bits) && c < (T(1) << bits)); }
+
+#if !REPF
+// ---------------------------------------------------------------------------------------------- integer representations
+static constexpr i128 RMAX = tmax<REP>();
+static constexpr i128 RMIN = -RMAX - 1;
+static constexpr i128 IMAX = i128(9223372036854775807LL);
+constexpr bool fits(i128 v) { return v >= RMIN && v <= RMAX; }
+constexpr bool fits64(i128 v) { return v >= -IMAX - 1 && v <= IMAX; }
+// oracle arithmetic type: 64 bit where every product below provably stays under 2^62, else 128 bit
+static constexpr i128 K30 = i128(1) << 30;
+static constexpr bool SMALLK = REPW <= 32 && CN < K30 && CD < K30 && FF < K30 && TF < K30;
+using W = std::conditional_t<SMALLK, long long, i128>;
+static bool fitsW(W v) { return v >= W(RMIN) && v <= W(RMAX); }
+
+// documented domain of the casts: duration_cast computes count * num / den in common_type<Rep, intmax_t>; floor/ceil/
+// round compare and subtract in the common duration type, whose tick counts must be representable in Rep
+constexpr i128 tq(i128 c) { return c * CN / CD; }
+constexpr bool p_cast(i128 c) { return fits64(c * CN) && fits(tq(c)); }
+constexpr bool p_cmpct(i128 c) { return p_cast(c) && fits(c * FF) && fits(tq(c) * TF); }
+constexpr bool p_floor(i128 c) { return p_cmpct(c) && fits(tq(c) - 1); }
+constexpr bool p_ceil(i128 c) { return p_cmpct(c) && fits(tq(c) + 1); }
+constexpr bool p_round(i128 c) { return p_floor(c) && p_ceil(c) && fits((tq(c) - 1) * TF) && fits((tq(c) + 1) * TF); }
+constexpr bool p_a(i128 a) { return fits(a * FF); }
+constexpr bool p_b(i128 b) { return fits(b * TF); }
+static constexpr Dom D_CAST = mkdom<REP>(p_cast), D_FLOOR = mkdom<REP>(p_floor), D_CEIL = mkdom<REP>(p_ceil), D_ROUND = mkdom<REP>(p_round);
+static constexpr Dom D_A = mkdom<REP>(p_a), D_B = mkdom<REP>(p_b);
+static_assert(domok<REP>(D_CAST, p_cast) && domok<REP>(D_FLOOR, p_floor) && domok<REP>(D_CEIL, p_ceil) && domok<REP>(D_ROUND, p_round) && domok<REP>(D_A, p_a) && domok<REP>(D_B, p_b));
+
 Q q_cast()
 {
-    REP c = nd(); cast_domain(c);
-    // exact quotient truncated toward zero: |r*CD| <= |c*CN| < |r*CD| + CD, sign of r matches or r == 0
-    i128 num = i128(c) * CN; i128 q = num / CD;  // constant divisor in the oracle
-    vf_assume(fits(q));
+    REP c = in<REP>(D_CAST);
+    W num = W(c) * W(CN);
     REP r = k_cast(c);
-    i128 R = r;
-    if (num >= 0) vf_assert(R >= 0 && R * CD <= num && num < (R + 1) * CD, "duration_cast truncates toward zero (non-negative)");
-    else vf_assert(R <= 0 && R * CD >= num && num > (R - 1) * CD, "duration_cast truncates toward zero (negative)");
+    W R = r;
+    // exact quotient truncated toward zero, stated without division
+    if (num >= 0) vf_assert(R >= 0 && R * W(CD) <= num && num < (R + 1) * W(CD), "duration_cast truncates toward zero (non-negative)");
+    else vf_assert(R <= 0 && R * W(CD) >= num && num > (R - 1) * W(CD), "duration_cast truncates toward zero (negative)");
     vf_assert(r == std::chrono::duration_cast<STo>(SFrom{c}).count(), "duration_cast == std::chrono");
 }
 Q q_floor()
 {
-    REP c = nd(); cast_domain(c);
-    i128 num = i128(c) * CN; i128 q = num / CD; vf_assume(fits(q)); res_domain(q - 1, q + 1);
-    REP r = k_floor(c); i128 R = r;
-    vf_assert(R * CD <= num && num < (R + 1) * CD, "floor: r <= d < r+1 exactly");
+    REP c = in<REP>(D_FLOOR);
+    W num = W(c) * W(CN);
+    REP r = k_floor(c); W R = r;
+    vf_assert(R * W(CD) <= num && num < (R + 1) * W(CD), "floor: r <= d < r+1 exactly");
     vf_assert(r == std::chrono::floor<STo>(SFrom{c}).count(), "floor == std::chrono");
 }
 Q q_ceil()
 {
-    REP c = nd(); cast_domain(c);
-    i128 num = i128(c) * CN; i128 q = num / CD; vf_assume(fits(q)); res_domain(q - 1, q + 1);
-    REP r = k_ceil(c); i128 R = r;
-    vf_assert((R - 1) * CD < num && num <= R * CD, "ceil: r-1 < d <= r exactly");
+    REP c = in<REP>(D_CEIL);
+    W num = W(c) * W(CN);
+    REP r = k_ceil(c); W R = r;
+    vf_assert((R - 1) * W(CD) < num && num <= R * W(CD), "ceil: r-1 < d <= r exactly");
     vf_assert(r == std::chrono::ceil<STo>(SFrom{c}).count(), "ceil == std::chrono");
 }
 Q q_round()
 {
-    REP c = nd(); cast_domain(c); lim(c, RLIM);
-    i128 num = i128(c) * CN; i128 q = num / CD; vf_assume(fits(q)); res_domain(q - 2, q + 2);
-    REP r = k_round(c); i128 R = r;
-    i128 d2 = 2 * (num - R * CD);
-    vf_assert(d2 >= -CD && d2 <= CD, "round: nearest");
-    if (d2 == CD || d2 == -CD) vf_assert((r & 1) == 0, "round: ties to even");
+    REP c = in<REP>(D_ROUND); lim(c, RLIM);
+    W num = W(c) * W(CN);
+    REP r = k_round(c); W R = r;
+    W diff = num - R * W(CD);  // |2*diff| <= CD, written without doubling
+    vf_assert(diff <= W(CD) - diff && diff >= -W(CD) - diff, "round: nearest");
+    if (diff == W(CD) - diff || diff == -W(CD) - diff) vf_assert((r & 1) == 0, "round: ties to even");
 }
 Q q_round_std()
 {
-    REP c = nd(); cast_domain(c); lim(c, RLIM);
-    i128 num = i128(c) * CN; i128 q = num / CD; vf_assume(fits(q)); res_domain(q - 2, q + 2);
+    REP c = in<REP>(D_ROUND);
     vf_assert(k_round(c) == std::chrono::round<STo>(SFrom{c}).count(), "round == std::chrono");
+}
+// reachability of the interesting branches (only for pairs with CD > 1): adjustment below zero, ties on odd and even
+Q q_reach()
+{
+    REP c = in<REP>(D_ROUND); lim(c, 14);
+    REP t = k_cast(c), f = k_floor(c), ce = k_ceil(c), r = k_round(c);
+    if (c < 0 && f != t) vf_witness("floor adjusts a negative inexact count");
+    if (c > 0 && ce != t) vf_witness("ceil adjusts a positive inexact count");
+    W num = W(c) * W(CN); W diff = num - W(r) * W(CD);
+    if (CD % 2 == 0) {
+        if (diff == W(CD) - diff) vf_witness("tie rounded down to even");
+        if (diff == -W(CD) - diff) vf_witness("tie rounded up to even");
+    }
+    if (r != f) vf_witness("round goes up");
+    vf_assert(f <= r && r <= ce && f <= t && t <= ce, "floor <= cast, round <= ceil");
 }
 Q q_abs()
 {
     REP c = nd(); vf_assume(i128(c) != RMIN);
     REP r = k_abs(c); vf_assert(i128(r) == (c < 0 ? -i128(c) : i128(c)), "abs");
+    vf_assert(r == std::chrono::abs(SFrom{c}).count(), "abs == std::chrono");
 }
-Q q_addsub()
+Q q_add()
 {
-    REP a = nd(), b = nd(); i128 A = i128(a) * FF, B = i128(b) * TF;
-    vf_assume(fits(A) && fits(B) && fits(A + B) && fits(A - B));
-    vf_assert(i128(k_add(a, b)) == A + B, "a + b exact in the common period");
-    vf_assert(i128(k_sub(a, b)) == A - B, "a - b exact in the common period");
-    vf_assert(i128(k_to_common(a)) == A, "conversion to the common type is exact");
-    vf_assert(k_add(a, b) == (SFrom{a} + STo{b}).count() && k_sub(a, b) == (SFrom{a} - STo{b}).count(), "+/- == std::chrono");
+    REP a = in<REP>(D_A), b = in<REP>(D_B); W A = W(a) * W(FF), B = W(b) * W(TF);
+    vf_assume(fitsW(A + B));
+    REP r = k_add(a, b);
+    vf_assert(r == REP(A + B), "a + b exact in the common period");  // A + B fits Rep (assumed above), so this is W(r) == A + B
+    vf_assert(r == (SFrom{a} + STo{b}).count(), "a + b == std::chrono");
+}
+Q q_sub()
+{
+    REP a = in<REP>(D_A), b = in<REP>(D_B); W A = W(a) * W(FF), B = W(b) * W(TF);
+    vf_assume(fitsW(A - B));
+    REP r = k_sub(a, b);
+    vf_assert(r == REP(A - B), "a - b exact in the common period");  // A - B fits Rep (assumed above)
+    vf_assert(r == (SFrom{a} - STo{b}).count(), "a - b == std::chrono");
+}
+Q q_common()
+{
+    REP a = in<REP>(D_A), b = in<REP>(D_B);
+    vf_assert(W(k_to_common(a)) == W(a) * W(FF) && W(k_to_common_b(b)) == W(b) * W(TF), "conversion to the common type is exact");
+    vf_assert(k_to_common(a) == SCT{SFrom{a}}.count() && k_to_common_b(b) == SCT{STo{b}}.count(), "conversion to the common type == std::chrono");
 }
 Q q_cmp()
 {
-    REP a = nd(), b = nd(); i128 A = i128(a) * FF, B = i128(b) * TF; vf_assume(fits(A) && fits(B));
+    REP a = in<REP>(D_A), b = in<REP>(D_B); W A = W(a) * W(FF), B = W(b) * W(TF);
     unsigned e = unsigned(A == B) | unsigned(A != B) << 1 | unsigned(A < B) << 2 | unsigned(A <= B) << 3 | unsigned(A > B) << 4 | unsigned(A >= B) << 5;
-    vf_assert(k_cmp(a, b) == e, "six comparisons are the comparisons of the exact rationals");
+    unsigned r = k_cmp(a, b);
+    vf_assert(r == e, "six comparisons are the comparisons of the exact rationals");
+    vf_assert(r == six(SFrom{a}, STo{b}), "comparisons == std::chrono");
 }
+// d / d and d % d over the whole domain against std::chrono
+Q q_moddiv_std()
+{
+    REP a = in<REP>(D_A), b = in<REP>(D_B); W A = W(a) * W(FF), B = W(b) * W(TF);
+    vf_assume(B != 0 && !(A == W(RMIN) && B == -1));
+    vf_assert(k_mod(a, b) == (SFrom{a} % STo{b}).count(), "d % d == std::chrono");
+    vf_assert(k_ddiv(a, b) == SFrom{a} / STo{b}, "d / d == std::chrono");
+}
+// d / d and d % d against the definition of truncated division (needs a symbolic product: divisor bounded by DLIM)
 Q q_moddiv()
 {
-    REP a = nd(), b = nd(); lim(b, DLIM); i128 A = i128(a) * FF, B = i128(b) * TF; vf_assume(fits(A) && fits(B) && B != 0 && !(A == RMIN && B == -1));
+    REP a = in<REP>(D_A), b = in<REP>(D_B); lim(b, DLIM); W A = W(a) * W(FF), B = W(b) * W(TF);
+    vf_assume(B != 0 && !(A == W(RMIN) && B == -1));
     REP m = k_mod(a, b), d = k_ddiv(a, b);
-    // truncated division in the common period: A == d*B + m, |m| < |B|, sign(m) == sign(A) or m == 0
-    vf_assert(i128(d) * B + i128(m) == A, "d/d and d%d: A == q*B + r");
-    vf_assert((m < 0 ? -i128(m) : i128(m)) < (B < 0 ? -B : B) && (m == 0 || (m < 0) == (A < 0)), "remainder magnitude and sign");
+    vf_assert(W(d) * B + W(m) == A, "d/d and d%d: A == q*B + r");
+    vf_assert((m < 0 ? -W(m) : W(m)) < (B < 0 ? -B : B) && (m == 0 || (m < 0) == (A < 0)), "remainder magnitude and sign");
 }
 Q q_unary()
 {
     REP a = nd(); unsigned op = vf_nd_u32(); vf_assume(op < 4);
     vf_assume(i128(a) != RMIN && i128(a) != RMAX);
-    vf_assert(i128(k_neg(a)) == -i128(a), "unary minus");
-    vf_assert(i128(k_incdec(a, op)) == i128(a) + ((op & 1) ? -1 : 1), "++/-- (pre and post) change the count by one");
+    vf_assert(i128(k_neg(a)) == -i128(a) && k_pos(a) == a, "unary minus and plus");
+    REP* ret = (REP*)vf_alloc(sizeof(REP));
+    i128 e = i128(a) + ((op & 1) ? -1 : 1);
+    vf_assert(i128(k_incdec(a, op, ret)) == e, "++/-- (pre and post) change the count by one");
+    vf_assert(i128(*ret) == (op < 2 ? e : i128(a)), "prefix forms return the new value, postfix forms the old one");
+    REP* z = (REP*)vf_alloc(sizeof(REP)); REP* mn = (REP*)vf_alloc(sizeof(REP)); REP* mx = (REP*)vf_alloc(sizeof(REP));
+    k_zmm(z, mn, mx);
+    vf_assert(*z == 0 && i128(*mn) == RMIN && i128(*mx) == RMAX && *mn == SFrom::min().count() && *mx == SFrom::max().count(), "zero/min/max");
 }
-Q q_compound()
+Q q_caddsub()
 {
-    REP a = nd(), b = nd(); unsigned op = vf_nd_u32(); vf_assume(op < 6);
-    i128 e;
-    switch (op) {
-    case 0: e = i128(a) + b; break;
-    case 1: e = i128(a) - b; break;
-    case 2: lim(b, DLIM); e = i128(a) * b; break;
-    default: lim(b, DLIM); vf_assume(b != 0 && !(i128(a) == RMIN && b == -1)); e = 0; break;
-    }
-    vf_assume(fits(e));
-    REP r = k_compound(a, b, op);
-    if (op < 3) vf_assert(i128(r) == e, "compound += -= *=");
-    else {
-        // truncated division stated without division: a == q*b + m, |m| < |b|, m == 0 or sign(m) == sign(a)
-        REP q = op == 3 ? r : k_compound(a, b, 3); REP m = op == 3 ? k_compound(a, b, 4) : r;
-        vf_assert(i128(q) * b + m == a && (m < 0 ? -i128(m) : i128(m)) < (b < 0 ? -i128(b) : i128(b)) && (m == 0 || (m < 0) == (a < 0)), "compound /= %= truncated division");
-    }
+    REP a = nd(), b = nd();
+    vf_assume(fits(i128(a) + b) && fits(i128(a) - b));
+    vf_assert(i128(k_cadd(a, b)) == i128(a) + b && i128(k_csub(a, b)) == i128(a) - b, "compound += -=");
+}
+Q q_cmul()
+{
+    REP a = nd(), b = nd(); lim(b, DLIM);
+    typedef std::conditional_t<REPW <= 32, long long, i128> M;
+    M e = M(a) * M(b);
+    vf_assume(e >= M(RMIN) && e <= M(RMAX));
+    vf_assert(M(k_cmul(a, b)) == e, "compound *= scalar");
+}
+Q q_cdivmod()
+{
+    REP a = nd(), b = nd(); lim(b, DLIM);
+    typedef std::conditional_t<REPW <= 32, long long, i128> M;
+    vf_assume(b != 0 && !(i128(a) == RMIN && b == -1));
+    REP q = k_cdiv(a, b), m = k_cmod(a, b), m2 = k_cmodd(a, b);
+    // truncated division stated without division: a == q*b + m, |m| < |b|, m == 0 or sign(m) == sign(a)
+    vf_assert(M(q) * M(b) + M(m) == M(a) && (m < 0 ? -M(m) : M(m)) < (b < 0 ? -M(b) : M(b)) && (m == 0 || (m < 0) == (a < 0)), "compound /= %= truncated division");
+    vf_assert(m2 == m, "%= duration == %= scalar on the count");
+}
+// compound /= and %= over the whole range against std::chrono
+Q q_cdivmod_std()
+{
+    REP a = nd(), b = nd();
+    vf_assume(b != 0 && !(i128(a) == RMIN && b == -1));
+    SFrom x{a}, y{a}, z{a}; x /= b; y %= b; z %= SFrom{b};
+    vf_assert(k_cdiv(a, b) == x.count() && k_cmod(a, b) == y.count() && k_cmodd(a, b) == z.count(), "compound /= %= == std::chrono");
 }
 Q q_tp_arith()
 {
-    REP t = nd(), d = nd(), u = nd(); unsigned op = vf_nd_u32(); vf_assume(op < 4);
+    REP t = nd(), d = nd(); unsigned op = vf_nd_u32(); vf_assume(op < 4);
     vf_assume(fits(i128(t) + d) && fits(i128(t) - d) && i128(t) != RMIN && i128(t) != RMAX);
     vf_assert(i128(k_tp_add(t, d)) == i128(t) + d && i128(k_tp_sub(t, d)) == i128(t) - d, "time_point += / -= duration");
-    vf_assert(i128(k_tp_incdec(t, op)) == i128(t) + ((op & 1) ? -1 : 1), "time_point ++/--");
-    i128 T = i128(t) * FF, U = i128(u) * TF; vf_assume(fits(T) && fits(U));
+    REP* ret = (REP*)vf_alloc(sizeof(REP));
+    i128 e = i128(t) + ((op & 1) ? -1 : 1);
+    vf_assert(i128(k_tp_incdec(t, op, ret)) == e, "time_point ++/--");
+    vf_assert(i128(*ret) == (op < 2 ? e : i128(t)), "time_point prefix forms return the new value, postfix forms the old one");
+    REP* mn = (REP*)vf_alloc(sizeof(REP)); REP* mx = (REP*)vf_alloc(sizeof(REP));
+    k_tp_mm(mn, mx);
+    vf_assert(i128(*mn) == RMIN && i128(*mx) == RMAX, "time_point min/max");
+}
+Q q_tp_cmp()
+{
+    REP t = in<REP>(D_A), u = in<REP>(D_B); W T = W(t) * W(FF), U = W(u) * W(TF);
     unsigned e = unsigned(T == U) | unsigned(T != U) << 1 | unsigned(T < U) << 2 | unsigned(T <= U) << 3 | unsigned(T > U) << 4 | unsigned(T >= U) << 5;
-    vf_assert(k_tp_cmp(t, u) == e, "time_point comparisons across duration types are those of the exact rationals");
+    unsigned r = k_tp_cmp(t, u);
+    vf_assert(r == e, "time_point comparisons across duration types are those of the exact rationals");
+    vf_assert(r == six(STP{SFrom{t}}, STP2{STo{u}}), "time_point comparisons == std::chrono");
 }
 Q q_tp_casts()
 {
-    REP c = nd(); cast_domain(c); lim(c, RLIM);
-    i128 num = i128(c) * CN; i128 q = num / CD; vf_assume(fits(q)); res_domain(q - 2, q + 2);
+    REP c = in<REP>(D_ROUND);
+    STP tp{SFrom{c}};
+    vf_assert(k_tp_cast(c) == std::chrono::time_point_cast<STo>(tp).time_since_epoch().count(), "time_point_cast == std::chrono");
+    vf_assert(k_tp_floor(c) == std::chrono::floor<STo>(tp).time_since_epoch().count(), "floor(time_point) == std::chrono");
+    vf_assert(k_tp_ceil(c) == std::chrono::ceil<STo>(tp).time_since_epoch().count(), "ceil(time_point) == std::chrono");
+    vf_assert(k_tp_round(c) == std::chrono::round<STo>(tp).time_since_epoch().count(), "round(time_point) == std::chrono");
     vf_assert(k_tp_cast(c) == k_cast(c) && k_tp_floor(c) == k_floor(c) && k_tp_ceil(c) == k_ceil(c) && k_tp_round(c) == k_round(c),
               "time_point_cast/floor/ceil/round are the duration operations on time_since_epoch()");
+}
+#else
+// ------------------------------------------------------------------------------------------ floating-point representations
+// Oracle: std::chrono (libstdc++) through the pipeline, bit-exact (or both NaN), for every bit pattern of the inputs.
+Q q_fcast()
+{
+    REP c = nd();
+    vf_assert(same(k_cast(c), std::chrono::duration_cast<STo>(SFrom{c}).count()), "duration_cast == std::chrono (floating Rep)");
+}
+Q q_ffloorceil()
+{
+    REP c = nd();
+    vf_assert(same(k_floor(c), std::chrono::floor<STo>(SFrom{c}).count()), "floor == std::chrono (floating Rep)");
+    vf_assert(same(k_ceil(c), std::chrono::ceil<STo>(SFrom{c}).count()), "ceil == std::chrono (floating Rep)");
+}
+Q q_fabs()
+{
+    REP c = nd();
+    vf_assert(same(k_abs(c), std::chrono::abs(SFrom{c}).count()), "abs == std::chrono (floating Rep)");
+    vf_assert(same(k_neg(c), (-SFrom{c}).count()) && same(k_pos(c), c), "unary minus/plus (floating Rep)");
+}
+Q q_faddsub()
+{
+    REP a = nd(), b = nd();
+    vf_assert(same(k_add(a, b), (SFrom{a} + STo{b}).count()), "a + b == std::chrono (floating Rep)");
+    vf_assert(same(k_sub(a, b), (SFrom{a} - STo{b}).count()), "a - b == std::chrono (floating Rep)");
+    vf_assert(same(k_to_common(a), SCT{SFrom{a}}.count()) && same(k_to_common_b(b), SCT{STo{b}}.count()), "conversion to the common type == std::chrono (floating Rep)");
+}
+Q q_fcmp()
+{
+    REP a = nd(), b = nd();
+    vf_assert(k_cmp(a, b) == six(SFrom{a}, STo{b}), "comparisons == std::chrono (floating Rep)");
+    vf_assert(k_tp_cmp(a, b) == six(STP{SFrom{a}}, STP2{STo{b}}), "time_point comparisons == std::chrono (floating Rep)");
+}
+Q q_fdiv()
+{
+    REP a = nd(), b = nd();
+    vf_assert(same(k_ddiv(a, b), SFrom{a} / STo{b}), "d / d == std::chrono (floating Rep)");
+}
+Q q_fcompound()
+{
+    REP a = nd(), b = nd();
+    SFrom w{a}, x{a}, y{a}, z{a}; w += SFrom{b}; x -= SFrom{b}; y *= b; z /= b;
+    vf_assert(same(k_cadd(a, b), w.count()) && same(k_csub(a, b), x.count()), "compound += -= == std::chrono (floating Rep)");
+    vf_assert(same(k_cmul(a, b), y.count()) && same(k_cdiv(a, b), z.count()), "compound *= /= == std::chrono (floating Rep)");
+    vf_assert(same(k_tp_add(a, b), w.count()) && same(k_tp_sub(a, b), x.count()), "time_point += -= (floating Rep)");
+}
+Q q_ftp_casts()
+{
+    REP c = nd();
+    STP tp{SFrom{c}};
+    vf_assert(same(k_tp_cast(c), std::chrono::time_point_cast<STo>(tp).time_since_epoch().count()), "time_point_cast == std::chrono (floating Rep)");
+    vf_assert(same(k_tp_floor(c), std::chrono::floor<STo>(tp).time_since_epoch().count()) && same(k_tp_ceil(c), std::chrono::ceil<STo>(tp).time_since_epoch().count()),
+              "floor/ceil(time_point) == std::chrono (floating Rep)");
+}
+#endif
+
+// ---------------------------------------------------------------------------------------------------- mixed representations
+// duration<REP, From::period> op duration<REP2, To::period>: the common type has Rep common_type<REP, REP2> (MREP).
+#if !REPF && !REP2F
+static constexpr i128 MMAX = tmax<MREP>();
+constexpr bool mfits(i128 v) { return v >= -MMAX - 1 && v <= MMAX; }
+constexpr bool p_ma(i128 a) { return mfits(a * FF); }
+constexpr bool p_mb(i128 b) { return mfits(b * TF); }
+static constexpr Dom D_MA = mkdom<REP>(p_ma), D_MB = mkdom<REP2>(p_mb);
+static_assert(domok<REP>(D_MA, p_ma) && domok<REP2>(D_MB, p_mb));
+Q q_mixed()
+{
+    REP a = in<REP>(D_MA); REP2 b = in<REP2>(D_MB);
+    i128 A = i128(a) * FF, B = i128(b) * TF;
+    vf_assume(mfits(A + B) && mfits(A - B));
+    MREP s = k_madd(a, b), d = k_msub(a, b);
+    vf_assert(i128(s) == A + B && i128(d) == A - B, "mixed Rep: a + b, a - b exact in the common type");
+    vf_assert(s == (SFrom{a} + STo2{b}).count() && d == (SFrom{a} - STo2{b}).count(), "mixed Rep: + - == std::chrono");
+    vf_assert(i128(k_mcommon_a(a)) == A && i128(k_mcommon_b(b)) == B, "mixed Rep: conversion to the common type is exact");
+    unsigned e = unsigned(A == B) | unsigned(A != B) << 1 | unsigned(A < B) << 2 | unsigned(A <= B) << 3 | unsigned(A > B) << 4 | unsigned(A >= B) << 5;
+    vf_assert(k_mcmp(a, b) == e, "mixed Rep: comparisons are those of the exact rationals");
+}
+#else
+Q q_mixed()
+{
+    REP a = nd(); REP2 b = ndT<REP2>();
+    // inputs of an integer Rep are kept where their conversion to the floating common Rep is exact in both libraries
+    if constexpr (!REPF) lim(a, 24);
+    if constexpr (!REP2F) lim(b, 24);
+    vf_assert(same(k_mcommon_a(a), SCT2{SFrom{a}}.count()), "mixed Rep: conversion of the first operand to the common type == std::chrono");
+    vf_assert(same(k_mcommon_b(b), SCT2{STo2{b}}.count()), "mixed Rep: conversion of the second operand to the common type == std::chrono");
+    vf_assert(same(k_madd(a, b), (SFrom{a} + STo2{b}).count()) && same(k_msub(a, b), (SFrom{a} - STo2{b}).count()), "mixed Rep: + - == std::chrono");
+    vf_assert(k_mcmp(a, b) == six(SFrom{a}, STo2{b}), "mixed Rep: comparisons == std::chrono");
+}
+#endif
+Q q_mcast()
+{
+    REP c = nd();  // only used with a floating To representation (every value converts without UB)
+    vf_assert(same(k_mcast(c), std::chrono::duration_cast<STo2>(SFrom{c}).count()), "duration_cast to another Rep == std::chrono");
 }
